@@ -326,9 +326,9 @@ func init() {
 		Assumptions: []string{"nbits 1..10 in quick, 1..16 in thorough", "float tolerance 1e-5 relative"},
 		Shards: func(tier string) []vShard {
 			var sh []vShard
-			depth := 2
+			depth := 3
 			if tier == "thorough" {
-				depth = 3
+				depth = 4
 			}
 			for _, cfg := range vC14Configs(tier) {
 				cfg := cfg
@@ -343,8 +343,8 @@ func init() {
 					}
 					c.Extra["configs_accepted"]++
 					d := depth
-					if cfg.NBits > 8 {
-						d = 2
+					if cfg.NBits > 6 {
+						d = depth - 1
 					}
 					vC14TrainBoundary(c, cfg)
 					vBFS(c, vC14Sys(c, cfg), d)
